@@ -116,6 +116,22 @@ Definition handle_before (a : access) (p : proto) (cid : option bytes)
         else BContinue (match id with [] => None | _ => Some id end)
   end.
 
+(** The question section as HandleBefore reads it: the blocked-hosts test
+    runs only when there is exactly one question ([len(Question) == 1]); of
+    that question the name and the type are passed on, the class is not
+    looked at. *)
+Record question := mkQ { q_name : bytes; q_type : N; q_class : N }.
+
+Definition the_question (qs : list question) : option (bytes * N) :=
+  match qs with
+  | [q] => Some (q_name q, q_type q)
+  | _ => None
+  end.
+
+Definition handle_before_msg (a : access) (p : proto) (cid : option bytes)
+    (ip : option addr) (qs : list question) : before :=
+  handle_before a p cid ip (the_question qs).
+
 (** The server in front of any request handler: the handler (resolution,
     filtering, query log, statistics: everything that is state [S]) runs only
     if the pre-request hook lets the request through. *)
